@@ -34,9 +34,9 @@ Definition C08_exact_statement (exact : field -> bool) (deser : field -> pyval -
 (* ------------------------------------------------------------------ theorems *)
 
 (* Well-formedness (characterisation), per declaration, by structural induction over the field: for every
-   declaration free of the characterised defects ([fclean]: no pattern/length-constrained Map key, no
-   exclusiveMaximum without a maximum, sizes/multiplesOf in draft 4's domain, non-empty distinct enums, JSON
-   bounds), the emitted schema, after the two dialect translations, is a well-formed draft-4 schema, and its
+   declaration free of the characterised defects ([fclean]: sizes/multiplesOf in draft 4's domain, non-empty
+   distinct enums, JSON bounds; a pattern/length-constrained Map key and exclusiveMaximum without a maximum are no
+   longer among them: the library writes {pattern: schema} and drops the lone exclusiveMaximum), the emitted schema, after the two dialect translations, is a well-formed draft-4 schema, and its
    $refs resolve in any definitions D that contain the referenced classes. *)
 Theorem C08_wf : forall ei D f,
     fclean ei f = true ->
@@ -73,9 +73,9 @@ Section C08.
   Variable ser_struct : pystr -> list (pystr * pyval) -> option pyval.
 
   (* Completeness (characterisation), compiler-correctness style, by structural induction over the field:
-     on the sub-fragment [cfrag] (numbers with bounds/multiplesOf/signs except the sign-only float bound and
-     exclusiveMaximum without an explicit maximum; strings with lengths and patterns; booleans; enum
-     classes; arrays with size bounds; maps with unconstrained string keys; AnyOf/Optional over scalar
+     on the sub-fragment [cfrag] (numbers with bounds/multiplesOf/signs/exclusiveMaximum except the sign-only float
+     bound; strings with lengths and patterns; booleans; enum
+     classes; arrays with size bounds; maps with string keys, constrained or not; AnyOf/Optional over scalar
      options — nested to any depth), every value the documented rules accept with normal form nf, once
      serialized, validates against the exported schema (after the dialect translation), for every fuel
      above the nesting depth. *)
@@ -184,12 +184,19 @@ Proof.
 Qed.
 Print Assumptions C08_complete_refuted.
 
-(* F16b: Map with a pattern-constrained String key: "patternProperties": <value schema> is ill-formed *)
-Example C08_wf_refuted_map_pattern_keys :
-  let f := FMapKV (FString {| minLength := None; maxLength := None; pattern := Some 0%N |})
-                  (FNumber KInteger SAny no_numc) no_sizec in
-  mappable no_einfo f = true /\ wf4 [] (fix_dialect (fschema no_einfo f)) = false.
-Proof. split; vm_compute; reflexivity. Qed.
+(* F16b (repaired): Map with a pattern/length-constrained String key: "patternProperties": {<key regex>: <value schema>}
+   is well-formed, and admits the serialized map whichever keys the regex finds; so is a Number with exclusiveMaximum
+   and no maximum of its own (the keyword is not exported), also under a sign class *)
+Example C08_wf_map_pattern_keys :
+  let f := FMapKV (FString {| minLength := Some 2%Z; maxLength := None; pattern := Some 0%N |})
+                  (FNumber KInteger SNonPositive {| multiplesOf := None; minimum := None; maximum := None; exclusiveMaximum := true |})
+                  no_sizec in
+  let j := PDict [(PStr (s2p "ab"), PNum (NInt 0))] in
+  mappable no_einfo f = true /\ fclean no_einfo f = true /\ cfrag no_einfo f = true /\
+  wf4 [] (fix_dialect (fschema no_einfo f)) = true /\
+  docb always [] f j = Some j /\ ser no_einfo always [] no_struct f j = Some j /\
+  valid4 always [] 10 (fix_dialect (fschema no_einfo f)) j = true.
+Proof. repeat split; vm_compute; reflexivity. Qed.
 
 (* "required": [] (a class without required fields) violates draft 4's stringArray (minItems 1) *)
 Definition cls_no_required : classdef :=
@@ -403,13 +410,14 @@ Section C08_src.
   Proof. exact (generated_MapMapper_to_schema_any pat_text ei s2s defs_store). Qed.
 
   Theorem C08_src_MapMapper_kv : forall rec mc c V sz sm,
-      key_text_ok pat_text c = true ->
+      key_pat_ok pat_text c = true ->
       (forall J, rec V sm = Ok J -> exists d D, J = PDict (d :: D)) ->
       MapMapper__to_schema s2s defs_store rec
         (mapper_obj mc (map_obj (PList [field_obj pat_text ei (FString c); V]) sz)) sm
       = (J <- rec V sm ;;
          Ok (PDict ([kw_json pat_text (KType TObject)]
-                    ++ [(PStr (s2p (if key_constrained c then "patternProperties" else "additionalProperties")), J)]
+                    ++ [if key_constrained c then (PStr (s2p "patternProperties"), PDict [(PStr (key_text pat_text c), J)])
+                        else (PStr (s2p "additionalProperties"), J)]
                     ++ map (kw_json pat_text) (size_kws sz)))).
   Proof. exact (generated_MapMapper_to_schema_kv pat_text ei s2s defs_store). Qed.
 
